@@ -146,14 +146,37 @@ func (p *Prog) impliedFacts(fn *ssa.Function, ef EdgeFact, depth int) []string {
 	gr := p.RBound(g, bind, 1)
 	var out []string
 	succ := successTargets(g)
+	dead := p.infeasibleUnder(p.typeAssumptionsAt(fn, call), g, gr, fix)
 	for _, gf := range p.edgeFactsWith(g, gr) {
-		if gf.Fact == infeasible || gf.Pred != nil {
+		if gf.Fact == infeasible || gf.Pred != nil || dead[gf.Key()] {
 			continue
 		}
-		if t, _ := (&PathSearch{Fn: g, AvoidEdges: map[edgeKey]bool{gf.Key(): true}, IsTarget: succ}).Find(); t == nil {
+		av := map[edgeKey]bool{gf.Key(): true}
+		for k := range dead {
+			av[k] = true
+		}
+		if t, _ := (&PathSearch{Fn: g, AvoidEdges: av, IsTarget: succ}).Find(); t == nil {
 			out = append(out, fix(gf.Fact))
 			// facts implied by a nested helper's success
 			out = append(out, p.impliedFactsNested(g, gr, gf, fix, depth-1)...)
+		}
+	}
+	// a single feasible success exit that returns a condition directly: the condition holds
+	var feas []*ssa.Return
+	for _, e := range Exits(g) {
+		if e.Kind == exitFailure {
+			continue
+		}
+		if t, _ := (&PathSearch{Fn: g, AvoidEdges: dead, IsTarget: func(in ssa.Instruction) bool { return in == ssa.Instruction(e.Ret) }}).Find(); t != nil {
+			feas = append(feas, e.Ret)
+		}
+	}
+	if len(feas) == 1 && len(feas[0].Results) > 0 {
+		op := feas[0].Results[len(feas[0].Results)-1]
+		if _, isC := op.(*ssa.Const); !isC {
+			if bt, ok := op.Type().Underlying().(*types.Basic); ok && bt.Kind() == types.Bool {
+				out = append(out, fix(posFact(gr, op)))
+			}
 		}
 	}
 	return out
@@ -429,4 +452,54 @@ func (p *Prog) builtRecordFields(fn *ssa.Function, v ssa.Value) (map[string]stri
 		return out, out != nil
 	}
 	return nil, false
+}
+
+
+var typeFactRe = regexp.MustCompile(`^(!?)(.+)\.\((\*?[\w/.]+)\)#1$`)
+
+// typeAssumptionsAt: the dynamic types known at instruction `at` of fn: X ↦ T for every necessary fact `X.(T)#1`
+// (a comma-ok type assertion or type-switch arm that every path to `at` has taken).
+func (p *Prog) typeAssumptionsAt(fn *ssa.Function, at ssa.Instruction) map[string]string {
+	// cheap pre-check: any type-assert edge in fn at all?
+	any := false
+	for _, ef := range p.EdgeFacts(fn) {
+		if typeFactRe.MatchString(ef.Fact) {
+			any = true
+			break
+		}
+	}
+	if !any {
+		return nil
+	}
+	out := map[string]string{}
+	for _, nf := range p.necessaryFacts(fn, at) {
+		if m := typeFactRe.FindStringSubmatch(nf.Fact); m != nil && m[1] == "" {
+			out[m[2]] = m[3]
+		}
+	}
+	return out
+}
+
+// infeasibleUnder: the edges of callee g (facts rendered by gr, rewritten by fix into the caller's terms) that
+// contradict what the caller knows about dynamic types at the call: another concrete type asserted of the same value,
+// or the negation of the known one. A type switch in a helper is thereby correlated with the caller's type guard.
+func (p *Prog) infeasibleUnder(assume map[string]string, g *ssa.Function, gr *Renderer, fix func(string) string) map[edgeKey]bool {
+	if len(assume) == 0 {
+		return nil
+	}
+	out := map[edgeKey]bool{}
+	for _, ef := range p.edgeFactsWith(g, gr) {
+		m := typeFactRe.FindStringSubmatch(fix(ef.Fact))
+		if m == nil {
+			continue
+		}
+		t, ok := assume[m[2]]
+		if !ok {
+			continue
+		}
+		if (m[1] == "" && t != m[3]) || (m[1] == "!" && t == m[3]) {
+			out[ef.Key()] = true
+		}
+	}
+	return out
 }
